@@ -238,6 +238,13 @@ func gen(w *world, t *trace.W, r *rng.R, maxOps int) {
 		case 7:
 			op = fmt.Sprintf("rmode %s %d", genRM(w, r), []int{0, 0, 0, 1, 2, 2, 6, 6, 4, 3}[r.Intn(10)])
 		}
-		w.run(t, op)
+		res := w.run(t, op)
+		// a call rejected by the storage is retried unchanged with healthy storage half of the time (an
+		// operator's natural reaction); every line is followed by a reload on a fresh Storage + options object
+		if (res == "kverr" || res == "json") && r.Bool(1, 2) {
+			f := strings.Fields(op)
+			f[len(f)-1] = "0"
+			w.run(t, strings.Join(f, " "))
+		}
 	}
 }
